@@ -168,6 +168,9 @@ func checkC18(c *Case, st *Stats) *Failure {
 				continue
 			}
 			l["info-on-accepted"] = true
+			if out.InfoShared {
+				l["info-struct-reused"] = true
+			}
 			if out.InfoID == sentinelInfoID {
 				setFail(&Failure{"info-id", fmt.Sprintf("op %d (%s) accepted but Info.ID was not filled", i, op.Short())})
 			}
@@ -207,8 +210,19 @@ func checkC18(c *Case, st *Stats) *Failure {
 				l["info-with-variadic"] = true
 			}
 		case OpInvoke:
-			// InvokeInfo is filled whenever the arguments could be built
-			if out.InfoTouched {
+			// InvokeInfo is filled whenever the arguments could be built: it
+			// must describe this function if the function was called, and
+			// also whenever the struct was written to at all
+			entered := false
+			for _, e := range tr.Events(i) {
+				if e.Kind == EvEnter && e.Fn == op.F.ID {
+					entered = true
+				}
+			}
+			if out.InfoShared && (entered || out.InfoTouched) {
+				l["info-struct-reused"] = true
+			}
+			if out.InfoTouched || entered {
 				l["invoke-info"] = true
 				wantIn := expectedInputs(op.F)
 				if strings.Join(out.InfoInputs, " | ") != strings.Join(wantIn, " | ") {
@@ -245,11 +259,13 @@ func init() {
 			if rapid.IntRange(0, 9).Draw(t, "kind") < 3 {
 				bk := DefaultBankKnobs()
 				bk.PInfo, bk.PRepeat = 90, 35
+				bk.PInfoShare = 35
 				bk.WDecorate = 4
 				return GenBankCase(t, bk)
 			}
 			k := DefaultKnobs()
 			k.PInfo = 85
+			k.PInfoShare = 35
 			k.WBadProvide, k.WCycleCloser, k.WDupDecorate, k.WBadDecorate = 2, 2, 2, 1
 			k.PFresh = 80
 			k.PAs, k.PVariadic, k.PSoft, k.PFlatten = 30, 20, 40, 40
